@@ -18,7 +18,7 @@ Definition Rexp (sd : side) (s s' : st) : Prop :=
   length (heap (cn s' sd)) = length (heap (cn s sd)) /\
   (forall o, i_id (get_inst s' sd o) = i_id (get_inst s sd o) /\ i_obsolete (get_inst s' sd o) = i_obsolete (get_inst s sd o)) /\
   (forall o, get_inst s' sd o = get_inst s sd o \/
-             (i_expired (get_inst s sd o) = false /\ no_vals (get_inst s' sd o) = true /\ i_expired (get_inst s' sd o) = true)) /\
+             (no_vals (get_inst s' sd o) = true /\ i_expired (get_inst s' sd o) = true)) /\
   (forall e, In e (c_strong (cch s' sd)) -> In e (c_strong (cch s sd))).
 
 Lemma Rexp_refl sd s : Rexp sd s s.
@@ -29,9 +29,9 @@ Proof.
   intros (A1 & A2 & A3 & A4 & A5 & A6 & A7 & A8 & A9 & A10 & A11) (B1 & B2 & B3 & B4 & B5 & B6 & B7 & B8 & B9 & B10 & B11).
   unfold Rexp. repeat (split; [congruence|]). split; [|split].
   - intros o. destruct (A9 o), (B9 o). split; congruence.
-  - intros o. destruct (B10 o) as [E|(E1 & E2 & E3)].
+  - intros o. destruct (B10 o) as [E|(E2 & E3)].
     + rewrite E. apply A10.
-    + destruct (A10 o) as [F|(F1 & F2 & F3)]; [|congruence]. right. rewrite <- F. auto.
+    + right. auto.
   - intros e H. apply A11, B11, H.
 Qed.
 
@@ -96,13 +96,11 @@ Proof. unfold get_inst. rewrite heap_with_heap, side_eqb_refl. reflexivity. Qed.
 Lemma so_expire_eq sd o s :
   so_expire cfg sd o s =
    let i := get_inst s sd o in
-   if i_expired i then (Ret tt, s) else
    let s1 := with_heap s sd (set_nth o (i_with_vals i (map (fun _ => None) (i_vals i))) (heap (cn s sd))) in
    let s2 := with_heap s1 sd (set_nth o (i_with_expired (get_inst s1 sd o) true) (heap (cn s1 sd))) in
    cache_expire cfg sd (i_id i) s2.
 Proof.
   unfold so_expire, bind, gets. cbv beta iota zeta.
-  destruct (i_expired (get_inst s sd o)); [reflexivity|].
   unfold upd_inst, modify. cbv beta iota zeta. reflexivity.
 Qed.
 Lemma cache_expire_eq sd id s :
@@ -121,17 +119,13 @@ Lemma so_expire_step sd o s :
   exists s', so_expire cfg sd o s = (Ret tt, s') /\
     Rexp sd s s' /\
     (forall o', o' <> o -> get_inst s' sd o' = get_inst s sd o') /\
-    (i_expired i = true -> s' = s) /\
-    (i_expired i = false ->
-       no_vals (get_inst s' sd o) = true /\ i_expired (get_inst s' sd o) = true /\
+    (no_vals (get_inst s' sd o) = true /\ i_expired (get_inst s' sd o) = true /\
        ((doCache cfg && c_present (cch s sd) = true /\
          c_strong (cch s' sd) = assoc_remove (i_id i) (c_strong (cch s sd)) /\
          c_weak (cch s' sd) = assoc_remove (i_id i) (c_weak (cch s sd))) \/
         (c_strong (cch s' sd) = c_strong (cch s sd) /\ c_weak (cch s' sd) = c_weak (cch s sd)))).
 Proof.
   intros Ho i. rewrite so_expire_eq. cbv zeta. fold i.
-  destruct (i_expired i) eqn:Ee.
-  - exists s. repeat split; auto using Rexp_refl. discriminate.
   - set (i1 := i_with_vals i (map (fun _ => None) (i_vals i))).
     set (h1 := set_nth o i1 (heap (cn s sd))).
     set (s1 := with_heap s sd h1).
@@ -153,10 +147,10 @@ Proof.
                               i_obsolete (if Nat.eqb o' o then i2 else get_inst s sd o') = i_obsolete (get_inst s sd o')).
     { intros o'. destruct (Nat.eqb o' o) eqn:E; [|auto]. apply Nat.eqb_eq in E. subst o'. split; reflexivity. }
     assert (Hvals : forall o', (if Nat.eqb o' o then i2 else get_inst s sd o') = get_inst s sd o' \/
-                      (i_expired (get_inst s sd o') = false /\ no_vals (if Nat.eqb o' o then i2 else get_inst s sd o') = true /\
+                      (no_vals (if Nat.eqb o' o then i2 else get_inst s sd o') = true /\
                        i_expired (if Nat.eqb o' o then i2 else get_inst s sd o') = true)).
     { intros o'. destruct (Nat.eqb o' o) eqn:E; [|auto]. apply Nat.eqb_eq in E. subst o'. right.
-      split; [exact Ee|]. split; [|reflexivity]. unfold no_vals, i2, i1. cbn. apply forallb_none_map. }
+      split; [|reflexivity]. unfold no_vals, i2, i1. cbn. apply forallb_none_map. }
     assert (R2 : Rexp sd s s2 /\ (forall o', get_inst s2 sd o' = if Nat.eqb o' o then i2 else get_inst s sd o')).
     { split.
       - unfold Rexp. unfold s2, s1. repeat (split; [destruct sd; reflexivity|]). split; [|split; [|split]].
@@ -168,25 +162,23 @@ Proof.
     destruct R2 as [R2 G3].
     rewrite cache_expire_eq. cbv zeta. rewrite C2.
     destruct (negb (doCache cfg) || negb (c_present (cch s sd))) eqn:Ed.
-    + exists s2. split; [reflexivity|]. split; [exact R2|]. split; [|split].
+    + exists s2. split; [reflexivity|]. split; [exact R2|]. split.
       * intros o' Hne. rewrite G3. apply Nat.eqb_neq in Hne. rewrite Hne. reflexivity.
-      * discriminate.
-      * intros _. rewrite G3, Nat.eqb_refl. split; [|split; [reflexivity|]].
+      * rewrite G3, Nat.eqb_refl. split; [|split; [reflexivity|]].
         -- unfold no_vals, i2, i1. cbn. apply forallb_none_map.
         -- right. rewrite C2. auto.
     + set (c3 := c_with (assoc_remove (i_id i) (c_strong (cch s sd))) (assoc_remove (i_id i) (c_weak (cch s sd)))
                         (c_count (cch s sd)) (c_offset (cch s sd))).
       assert (G4 : forall o', get_inst (with_cch s2 sd c3) sd o' = get_inst s2 sd o').
       { intros o'. unfold get_inst. rewrite heap_with_cch. reflexivity. }
-      exists (with_cch s2 sd c3). split; [reflexivity|]. split; [|split; [|split]].
+      exists (with_cch s2 sd c3). split; [reflexivity|]. split; [|split].
       * eapply Rexp_trans; [exact R2|].
         unfold Rexp. repeat (split; [destruct sd; reflexivity|]). split; [|split].
         -- intros o'. rewrite G4. auto.
         -- intros o'. rewrite G4. auto.
         -- rewrite cch_with_cch. cbn. rewrite C2. intros e He. apply In_assoc_remove in He. tauto.
       * intros o' Hne. rewrite G4, G3. apply Nat.eqb_neq in Hne. rewrite Hne. reflexivity.
-      * discriminate.
-      * intros _. rewrite G4, G3, Nat.eqb_refl. split; [|split; [reflexivity|]].
+      * rewrite G4, G3, Nat.eqb_refl. split; [|split; [reflexivity|]].
         -- unfold no_vals, i2, i1. cbn. apply forallb_none_map.
         -- left. rewrite cch_with_cch. cbn. split; [|auto].
            destruct (doCache cfg), (c_present (cch s sd)); cbn in *; auto; discriminate.
@@ -199,7 +191,7 @@ Definition visited (s : st) (sd : side) (ids : list Z) (o : nat) : Prop :=
 Lemma expire_ids_spec sd : forall ids s,
   cache_ok s sd ->
   exists s', expire_ids cfg sd ids s = (Ret tt, s') /\ Rexp sd s s' /\ cache_ok s' sd /\
-    (forall o, visited s sd ids o -> i_expired (get_inst s sd o) = false -> no_vals (get_inst s' sd o) = true) /\
+    (forall o, visited s sd ids o -> no_vals (get_inst s' sd o) = true) /\
     (forall o, ~ visited s sd ids o -> get_inst s' sd o = get_inst s sd o).
 Proof.
   induction ids as [|id rest IH]; intros s Hc.
@@ -210,32 +202,28 @@ Proof.
     destruct (try_get cfg s sd id) as [o1|] eqn:Et.
     + (* an instance is found and expired *)
       pose proof (try_get_known s sd id o1 Hc Et) as [Hb Hid].
-      destruct (so_expire_step sd o1 s Hb) as (s1 & E1 & R1 & F1 & X1 & Y1).
+      destruct (so_expire_step sd o1 s Hb) as (s1 & E1 & R1 & F1 & Y1).
       unfold bind at 1. rewrite E1.
       assert (Hc1 : cache_ok s1 sd).
       { pose proof (ok_so_expire cfg sd o1 s Hc) as H. rewrite E1 in H. exact H. }
       (* tryGet after this expire *)
       assert (T : (forall id2, id2 <> id -> try_get cfg s1 sd id2 = try_get cfg s sd id2) /\
                   (try_get cfg s1 sd id = None \/ try_get cfg s1 sd id = Some o1)).
-      { destruct (i_expired (get_inst s sd o1)) eqn:Ee.
-        - rewrite (X1 eq_refl). split; auto.
-        - destruct (Y1 eq_refl) as (_ & _ & [(_ & P1 & P2)|(P1 & P2)]).
-          + rewrite Hid in P1, P2. destruct R1 as (Rs & _).
-            destruct (try_get_purge s s1 sd id Hc Rs P1 P2) as [Q1 Q2]. split; auto.
-          + destruct R1 as (Rs & _). split; [intros; apply try_get_same; auto|]. right. rewrite <- Et. apply try_get_same; auto. }
+      { destruct Y1 as (_ & _ & [(_ & P1 & P2)|(P1 & P2)]).
+        - rewrite Hid in P1, P2. destruct R1 as (Rs & _).
+          destruct (try_get_purge s s1 sd id Hc Rs P1 P2) as [Q1 Q2]. split; auto.
+        - destruct R1 as (Rs & _). split; [intros; apply try_get_same; auto|]. right. rewrite <- Et. apply try_get_same; auto. }
       destruct T as [T1 T2].
       destruct (IH s1 Hc1) as (s' & E' & R' & C' & V' & N').
       exists s'. split; [exact E'|]. split; [eapply Rexp_trans; eauto|]. split; [exact C'|]. split.
-      * intros o [id2 [Hin Ht2]] Hexp.
+      * intros o [id2 [Hin Ht2]].
         destruct (Nat.eq_dec o o1) as [->|Hne].
         -- (* this very instance: expired now, whatever happens later *)
-           destruct (Y1 Hexp) as (Z1 & Z2 & _).
-           destruct R' as (_ & _ & _ & _ & _ & _ & _ & _ & _ & R10 & _). destruct (R10 o1) as [E|(E & _)]; [rewrite E; exact Z1|congruence].
+           destruct Y1 as (Z1 & Z2 & _).
+           destruct R' as (_ & _ & _ & _ & _ & _ & _ & _ & _ & R10 & _). destruct (R10 o1) as [E|(E & _)]; [rewrite E; exact Z1|exact E].
         -- assert (Hne2 : id2 <> id) by (intros ->; rewrite Et in Ht2; inversion Ht2; congruence).
            destruct Hin as [->|Hin]; [congruence|].
-           apply V'.
-           ++ exists id2. split; [exact Hin|]. rewrite T1 by exact Hne2. exact Ht2.
-           ++ rewrite (F1 o Hne). exact Hexp.
+           apply V'. exists id2. split; [exact Hin|]. rewrite T1 by exact Hne2. exact Ht2.
       * intros o Hnv.
         assert (Hne : o <> o1) by (intros ->; apply Hnv; exists id; split; [left; reflexivity|exact Et]).
         rewrite <- (F1 o Hne). apply N'. intros [id2 [Hin Ht2]]. apply Hnv.
@@ -246,7 +234,7 @@ Proof.
       unfold bind at 1. cbn.
       destruct (IH s Hc) as (s' & E' & R' & C' & V' & N').
       exists s'. split; [exact E'|]. split; [exact R'|]. split; [exact C'|]. split.
-      * intros o [id2 [Hin Ht2]] Hexp. apply V'; [|exact Hexp].
+      * intros o [id2 [Hin Ht2]]. apply V'.
         destruct Hin as [->|Hin]; [congruence|]. exists id2. auto.
       * intros o Hnv. apply N'. intros [id2 [Hin Ht2]]. apply Hnv. exists id2. split; [right; exact Hin|exact Ht2].
 Qed.
